@@ -564,7 +564,16 @@ def _expand(helper: _Helper, binding: dict, caller_names: set, tag: str,
                 value=copy.deepcopy(arg), lineno=f.lineno, col_offset=0))
         else:
             exprs[p] = arg
+    arg_names = {n.id for a in binding.values() if isinstance(a, ast.AST)
+                 for n in ast.walk(a) if isinstance(n, ast.Name)}
     for loc in stored - params:
+        if isinstance(site, ast.Assign) and len(site.targets) == 1 and \
+                isinstance(site.targets[0], ast.Name) and \
+                site.targets[0].id == loc and loc not in arg_names and \
+                helper.kind in ('value', 'retbody', 'tail'):
+            # the site re-binds this very variable from the helper's result:
+            # its old value is dead and no argument reads it
+            continue
         if loc in caller_names and _live_across(fnode, loc, site):
             renames[loc] = f'{loc}__{tag}'
     sub = _Subst(exprs, renames)
@@ -1337,6 +1346,38 @@ class _AllNames(set):
         return set(other)
 
 
+def _derived(f, names) -> set:
+    """Locals of f (transitively) bound from an expression that mentions one
+    of `names` -- including the names themselves."""
+    out = set(names)
+    grew = True
+    while grew:
+        grew = False
+        for n in ast.walk(f):
+            tgt, val = [], None
+            if isinstance(n, ast.Assign):
+                tgt, val = n.targets, n.value
+            elif isinstance(n, (ast.AnnAssign, ast.AugAssign)):
+                tgt, val = [n.target], n.value
+            elif isinstance(n, (ast.For, ast.AsyncFor, ast.comprehension)):
+                tgt, val = [n.target], n.iter
+            elif isinstance(n, ast.NamedExpr):
+                tgt, val = [n.target], n.value
+            elif isinstance(n, ast.withitem) and n.optional_vars is not None:
+                tgt, val = [n.optional_vars], n.context_expr
+            if val is None:
+                continue
+            vn = {x.id for x in ast.walk(val) if isinstance(x, ast.Name)}
+            tn = {x.id for t in tgt for x in ast.walk(t)
+                  if isinstance(x, ast.Name)
+                  and isinstance(x.ctx, ast.Store)}
+            # either direction: `q = p.a` and `p = q` both relate p and q
+            if (vn & out and tn - out) or (tn & out and vn - out):
+                out |= vn | tn
+                grew = True
+    return out
+
+
 def _header_exprs(s):
     """Expressions of a compound statement evaluated once, before its
     blocks (`while` tests are re-evaluated: none)."""
@@ -1546,10 +1587,52 @@ def _propagate_one(rel, q, f, name, notes, tree=None):
             if any(isinstance(n, ast.Name) and n.id == name
                    and id(n) not in hdr for n in ast.walk(lst)):
                 scan.append(lst)
+        # (a store `q.a = ..` through a local q that is not derived from
+        # anything the expression reads cannot re-bind what it reads --
+        # A-alias: distinct locals not assigned from one another are distinct
+        # objects)
+        related = _derived(f, rhs_names)
+        fn_locals = {b[0] for b in bindings(f) if b[1] != 'import'}
+        # within a loop-free compound last statement, what lies after the
+        # last use (in source order; the targets of the assignment whose
+        # value holds that use are stored after it) happens after it
+        after = set()
+        if scan and scan[-1] is lst and not any(isinstance(x, (
+                ast.For, ast.AsyncFor, ast.While, ast.comprehension,
+                ast.Lambda, ast.FunctionDef, ast.AsyncFunctionDef))
+                for x in ast.walk(lst)):
+            uses = [n for n in ast.walk(lst) if isinstance(n, ast.Name)
+                    and n.id == name]
+            last_use = max(uses, key=_pos)
+            simple = None
+            for x in ast.walk(lst):
+                if isinstance(x, ast.stmt) and not isinstance(getattr(
+                        x, 'body', None), list) and any(
+                        y is last_use for y in ast.walk(x)):
+                    simple = x
+            inside = {id(y) for y in ast.walk(simple)} if simple else set()
+            for x in ast.walk(lst):
+                if id(x) in inside:
+                    continue
+                if hasattr(x, 'lineno') and _pos(x) > _pos(last_use):
+                    after.add(id(x))
+            if isinstance(simple, (ast.Assign, ast.AnnAssign)):
+                tg = simple.targets if isinstance(simple, ast.Assign) \
+                    else [simple.target]
+                for t in tg:
+                    after |= {id(y) for y in ast.walk(t)}
         for st in scan:
             for n in ast.walk(st):
+                if id(n) in after:
+                    continue
                 if isinstance(n, ast.Attribute) and isinstance(
                         n.ctx, (ast.Store, ast.Del)):
+                    r = n.value
+                    while isinstance(r, (ast.Attribute, ast.Subscript)):
+                        r = r.value
+                    if isinstance(r, ast.Name) and r.id in fn_locals and \
+                            r.id not in related and r.id != 'self':
+                        continue
                     attr_stored.add(n.attr)
                 elif isinstance(n, (ast.Call, ast.Await)):
                     calls = True
